@@ -140,6 +140,11 @@ CompleteAfterAll(D, O) ==
      /\ \A a \in Kids(O, t.sid) : ~Live(a.state) \/ ~a.accepted
      /\ (By(Rng(O.wf), t.wf).state \notin Final \/ t.state = "SUCCESS") =>
            Cardinality({a.idx : a \in {x \in Kids(O, t.sid) : x.accepted}}) = D.tasks[t.name].items
+\* at rest no with-items task is left RUNNING although every one of its items has finished (its accounting never closes)
+ItemsTaskCompletes(D, O) ==
+  O.pend.quiet => \A t \in Rng(O.tk) :
+     (D.tasks[t.name].items >= 0 /\ t.state = "RUNNING" /\ By(Rng(O.wf), t.wf).state = "RUNNING") =>
+        (Kids(O, t.sid) = {} \/ \E a \in Kids(O, t.sid) : a.state \notin Final)
 WithItemsFinalState(D, O) ==
   \A t \in Rng(O.tk) : (D.tasks[t.name].items >= 0 /\ t.state \in Final /\ t.wiCount >= 0
                           /\ By(Rng(O.wf), t.wf).state \notin Final) =>
@@ -154,6 +159,13 @@ NoNewTasksWhilePaused(P, O) ==
 NoNewTasksAfterStop(P, O, ev) ==
   \A w \in Rng(P.wf) : (w.state \in Final /\ ev.what # "rerun")
        => Sids(TasksOf(O, w.sid)) = Sids(TasksOf(P, w.sid))
+\* ... and no join that was still WAITING when the workflow stopped is woken afterwards (its refresh job may still be in the
+\* scheduler: it must find the workflow finished), so nothing is started by it
+WaitingStaysAfterStop(P, O, ev) ==
+  \A w \in Rng(P.wf) : (w.state \in Final /\ ev.what # "rerun" /\ Has(Rng(O.wf), w.sid) /\ By(Rng(O.wf), w.sid).state \in Final)
+       => \A t \in TasksOf(P, w.sid) : (t.state = "WAITING" /\ Has(Rng(O.tk), t.sid)) =>
+             /\ By(Rng(O.tk), t.sid).state \in {"WAITING", "ERROR", "CANCELLED"}
+             /\ Kids(O, t.sid) = Kids(P, t.sid)
 \* an acknowledged pause: the execution and its unfinished sub-executions are PAUSED
 PauseAck(P, O, ev, target) ==
   (ev.kind = "op" /\ ev.what = "pause" /\ ev.exc = "none" /\ Has(Rng(P.wf), target) /\ By(Rng(P.wf), target).state = "RUNNING")
@@ -189,9 +201,30 @@ AttemptBound(D, O, rerunSeen) ==
      Cardinality(Kids(O, t.sid)) <= D.tasks[t.name].retry + 1
 StopAtFirstSuccess(D, S, l) ==
   LET O == S[l].obs IN
-  \A t \in Rng(O.tk) : (D.tasks[t.name].retry > 0 /\ D.tasks[t.name].items = -1 /\ ~D.tasks[t.name].failOn) =>
+  \* (with a continue-on clause a successful attempt may be repeated: RetryStopsWhenTold covers that case)
+  \A t \in Rng(O.tk) : (D.tasks[t.name].retry > 0 /\ D.tasks[t.name].items = -1 /\ ~D.tasks[t.name].failOn /\ D.tasks[t.name].contOn = "none") =>
      \A a, b \in Kids(O, t.sid) :
         (a.state = "SUCCESS" /\ a.sid # b.sid) => FirstSeen(S, l, "ax", b.sid) <= FirstSeen(S, l, "ax", a.sid)
+\* continue-on / break-on: an attempt is followed by another one only if the policy says so - a failed attempt unless break-on is
+\* true or continue-on is false, a successful one only if continue-on is true
+Repeatable(d, st) == \/ (st = "ERROR" /\ d.breakOn # "true" /\ d.contOn # "false")
+                     \/ (st = "SUCCESS" /\ d.contOn = "true")
+PlainRetryTask(D, t) == D.tasks[t.name].retry > 0 /\ D.tasks[t.name].items = -1 /\ ~D.tasks[t.name].failOn /\ D.tasks[t.name].timeout = 0
+                        /\ ~D.tasks[t.name].pauseBefore /\ D.tasks[t.name].waitAfter = 0 /\ (~t.isJoin \/ D.tasks[t.name].join = -1)
+RetryStopsWhenTold(D, S, l, rerunSeen, opSeen) ==
+  LET O == S[l].obs IN
+  (~rerunSeen /\ ~opSeen) =>
+  \A t \in Rng(O.tk) : PlainRetryTask(D, t) =>
+     \A a, b \in KidsAx(O, t.sid) :
+        (a.sid # b.sid /\ FirstSeen(S, l, "ax", a.sid) < FirstSeen(S, l, "ax", b.sid) /\ a.state \in Final) => Repeatable(D.tasks[t.name], a.state)
+\* ... and at rest a finished task has not stopped early: its last attempt is not repeatable, or the attempts are used up
+RetryExhausted(D, S, l, rerunSeen, opSeen) ==
+  LET O == S[l].obs IN
+  (O.pend.quiet /\ ~rerunSeen /\ ~opSeen) =>
+  \A t \in Rng(O.tk) : (PlainRetryTask(D, t) /\ KidsAx(O, t.sid) # {} /\ t.state \in Final /\ By(Rng(O.wf), t.wf).state \in {"SUCCESS", "ERROR"}) =>
+     LET last == CHOOSE a \in KidsAx(O, t.sid) :
+                    \A b \in KidsAx(O, t.sid) : FirstSeen(S, l, "ax", b.sid) <= FirstSeen(S, l, "ax", a.sid)
+     IN (last.state \in Final /\ Repeatable(D.tasks[t.name], last.state)) => Cardinality(KidsAx(O, t.sid)) >= D.tasks[t.name].retry + 1
 FinalIffLast(D, S, l, rerunSeen, opSeen) ==
   LET O == S[l].obs IN
   (O.pend.quiet /\ ~rerunSeen /\ ~opSeen) =>
@@ -255,10 +288,14 @@ FailOnApplied(D, O) ==
 Expired(a, now, thr) == a.state = "RUNNING" /\ a.isSync /\ a.hb >= 0 /\ a.hb < now - thr
 \* a checker pass fails exactly the running synchronous actions whose last heartbeat (or first-heartbeat
 \* deadline) is older than max_missed * interval, with the heartbeat error
-ExpiredFailed(P, O, ev, thr) ==
+\* (batch > 0: [action_heartbeat] batch_size is configured - a pass may then fail as few as `batch` of them, but that many it must:
+\*  expired actions the checker cannot process - they belong to no task - must not use the batch up pass after pass)
+ExpiredFailed(P, O, ev, thr, batch) ==
   (ev.kind = "hb" /\ ev.exc = "none") =>
-     \A a \in Rng(P.ax) : Expired(a, ev.now, thr) =>
-        (Has(Rng(O.ax), a.sid) => By(Rng(O.ax), a.sid).state = "ERROR")
+     LET exp == {a \in Rng(P.ax) : Expired(a, ev.now, thr) /\ Has(Rng(O.ax), a.sid)}
+         failed == {a \in exp : By(Rng(O.ax), a.sid).state = "ERROR"}
+     IN IF batch = 0 THEN failed = exp
+        ELSE Cardinality(failed) >= (IF Cardinality(exp) < batch THEN Cardinality(exp) ELSE batch)
 NeverExpireFresh(P, O, ev, thr) ==
   (ev.kind = "hb") =>
      \A a \in Rng(P.ax) : ~Expired(a, ev.now, thr) =>
